@@ -372,6 +372,10 @@ class Interp:
                 r = self._or([self.eq(a, x, st) for x in b])
             elif isinstance(b, SSet):
                 r = self._or([self.eq(a, x, st) for x in b.elems])
+            elif isinstance(b, str) and isinstance(a, (str, SStr)):
+                # substring test against a concrete string: true exactly for its substrings
+                subs = sorted({b[i:j] for i in range(len(b) + 1) for j in range(i, len(b) + 1)})
+                r = self._or([self.eq(a, x, st) for x in subs])
             else:
                 raise Unsupported(f"`in` on {b!r}")
             return r if isinstance(op, ast.In) else self._not(r)
